@@ -98,7 +98,11 @@ def main():
     print(name, pid, 'tests_pass=%s demo pristine rc=%s patched rc=%s caught_by=%s' %
           (res.get('tests_all_pass'), res.get('demo_pristine_rc'), res.get('demo_patched_rc'), res.get('caught_by')))
     # after a scratch run the generated Coq files must be regenerated from /repo
-    sh([sys.executable, os.path.join(VERIF, 'tools/gen_from_source.py'), '/repo', VERIF])
+    import fcntl
+    with open(os.path.join(VERIF, '_work', 'gen.lock'), 'w') as lf:
+        fcntl.flock(lf, fcntl.LOCK_EX)
+        sh([sys.executable, os.path.join(VERIF, 'tools/gen_from_source.py'), '/repo', VERIF])
+        sh([sys.executable, os.path.join(VERIF, 'tools/gen_inventory.py'), '/repo', VERIF])
 
 
 if __name__ == '__main__':
